@@ -35,7 +35,7 @@ from . import c04
 # an unsupported construct -- iteration over a symbolic string, symbolic
 # index): Constants, SortChildren, MergeWithChildren, BVElimBVComp,
 # BVIteToBVComp, BVZeroExtendPredicate, BVExtractZeroExtend, BvMergeExtend,
-# BVTransformToBool, BVConcatToZeroExtend, RemoveConstructor,
+# BVConcatToZeroExtend, RemoveConstructor,
 # RemoveDatatypeIdentity; they are covered by the corpus-bounded check (and
 # the rewriting ones by C17's schemas).
 MUTATORS = [
@@ -52,8 +52,8 @@ MUTATORS = [
     ('arithmetic', 'ArithmeticNegateRelation'),
     ('arithmetic', 'ArithmeticSplitNaryRelation'),
     ('arithmetic', 'ArithmeticStrengthenRelation'),
-    ('bv', 'BVDoubleNegation'), 
-    ('bv', 'BVReflexiveNand'),
+    ('bv', 'BVDoubleNegation'),
+    ('bv', 'BVReflexiveNand'), ('bv', 'BVTransformToBool'),
     
     
     
